@@ -52,6 +52,7 @@ func checkC11(w *World, r *Report) {
 	c11ReloadableInKey(w, r, ci)
 	c11NoLossyURL(w, r, sites)
 	c11HTTPCacheKey(w, r, ci)
+	c11PartsSeparated(w, r, sites)
 }
 
 // ---- C11.1 -------------------------------------------------------------------------------------
@@ -1127,11 +1128,11 @@ func c11NoLossyURL(w *World, r *Report, sites []*cachingSite) {
 // fetched for a different request (the key set of another identity provider that happens to use
 // the same path). Decided on the key function: which request components reach its digest.
 func c11HTTPCacheKey(w *World, r *Report, ci *types.Named) {
-	httpCacheKey(w, r, ci, "C11.8", "the key of the HTTP response cache covers the absolute URL (host, path, query), the method and the Authorization header of the request")
+	httpCacheKey(w, r, ci, "C11.8", "the key of the HTTP response cache covers the absolute URL (host, path, query), the method and the Authorization header of the request, and either the body or the cache is used for GET and HEAD only")
 }
 
 func httpCacheKey(w *World, r *Report, ci *types.Named, id, text string) {
-	ri := r.Rule(id, 5, text)
+	ri := r.Rule(id, 6, text)
 	pkg := modPath + "/internal/httpcache"
 	keyFns := map[*ssa.Function]bool{}
 	for _, name := range []string{"Get", "Set"} {
@@ -1227,6 +1228,45 @@ func httpCacheKey(w *World, r *Report, ci *types.Named, id, text string) {
 		r.Ob(ri, name+"|path-in-key", k.Pos(), path, "the key of the HTTP response cache does not depend on the request path")
 		r.Ob(ri, name+"|query-in-key", k.Pos(), query, "the key of the HTTP response cache does not depend on the query")
 		r.Ob(ri, name+"|method-in-key", k.Pos(), method, "the key of the HTTP response cache does not depend on the request method")
+		// the body selects the response as well (a POST to an introspection endpoint): it is part of
+		// the key, or the cache is used for body-less methods only (a test of the method guards
+		// every use of the cache)
+		body := reaches(field("Body")) || reaches(func(v ssa.Value) bool {
+			c, ok := v.(*ssa.Call)
+			return ok && (callName(c.Common()) == "net/http.Request.GetBody" || callName(c.Common()) == "io.ReadAll")
+		})
+		if !body {
+			guarded := true
+			nUse := 0
+			for _, nm := range []string{"Get", "Set"} {
+				for _, cc := range cacheCalls(w, ci, nm) {
+					if fnPkgPath(cc.Parent()) != pkg {
+						continue
+					}
+					nUse++
+					g := cc.Parent()
+					methodTest := func(f Fact) bool {
+						// the edge on which the method *is* one of the body-less ones
+						if f.Kind != FCmp || f.Op != token.EQL {
+							return false
+						}
+						for _, pr := range [][2]ssa.Value{{f.X, f.Y}, {f.Y, f.X}} {
+							if _, fld := fieldLoad(pr[0]); fld != nil && fld.Name() == "Method" {
+								if s, ok := constString(pr[1]); ok && (s == "GET" || s == "HEAD") {
+									return true
+								}
+							}
+						}
+						return false
+					}
+					if !(onlyVia(g, cc.Block(), methodTest) || onlyViaCallers(g, methodTest, 0)) {
+						guarded = false
+					}
+				}
+			}
+			body = guarded && nUse > 0
+		}
+		r.Ob(ri, name+"|body-in-key-or-bodyless-only", k.Pos(), body, "the key of the HTTP response cache ignores the request body and the cache is used for every method: the response to one POST (the introspection result of one token) is served for another")
 		r.Ob(ri, name+"|credential-in-key", k.Pos(), auth, "the key of the HTTP response cache does not depend on the Authorization header: a response fetched with one credential is served for another")
 	}
 }
@@ -1316,4 +1356,130 @@ func dependsOnCachedContent(w *World, G *ssa.Function, get ssa.CallInstruction, 
 		}
 	}
 	return false
+}
+
+// ---- C11.5: the parts of a cache key cannot run into each other ----------------------------------------
+//
+// A key that is the digest of parts written one after the other is unambiguous only if the parts
+// cannot shift across their boundary: "ab"+"c" and "a"+"bc" digest alike. Two parts of variable
+// length that are written consecutively therefore need a separator between them (a constant, or a
+// fixed-length part such as another digest or a length). Decided per key function, in program order
+// within each block and around each loop body.
+func c11PartsSeparated(w *World, r *Report, sites []*cachingSite) {
+	ri := r.Rule("C11.5", 4, "two variable-length parts written consecutively into the digest of a cache key are separated by a constant or a fixed-length part")
+	seen := map[*ssa.Function]bool{}
+	var fns []*ssa.Function
+	for _, s := range sites {
+		for _, k := range s.KeyFns {
+			if !seen[k] {
+				seen[k] = true
+				fns = append(fns, k)
+			}
+		}
+	}
+	// key functions that are not next to a cache call: the token key of the client-credentials strategy
+	for _, fn := range w.Funcs {
+		if !seen[fn] && !w.isMockFn(fn) && fn.Parent() == nil && strings.Contains(strings.ToLower(fn.Name()), "cachekey") && fn.Blocks != nil {
+			seen[fn] = true
+			fns = append(fns, fn)
+		}
+	}
+	kind := func(v ssa.Value) string {
+		v = stripConv(v)
+		if _, ok := v.(*ssa.Const); ok {
+			return "const"
+		}
+		// a literal of constants ([]byte{0})
+		if sl, ok := v.(*ssa.Slice); ok {
+			if els := sliceLiteralElems(sl); els != nil {
+				allC := true
+				for _, e := range els {
+					if _, isC := stripConv(e).(*ssa.Const); !isC {
+						allC = false
+					}
+				}
+				if allC {
+					return "const"
+				}
+			}
+		}
+		fixed := false
+		for _, o := range w.Origins(v, nil) {
+			switch x := stripConv(o).(type) {
+			case *ssa.Call:
+				n := callName(x.Common())
+				if strings.HasSuffix(n, ".Hash") || strings.HasSuffix(n, ".Sum") || strings.HasPrefix(n, "crypto/") || strings.HasPrefix(n, "strconv.AppendBool") {
+					fixed = true
+					continue
+				}
+				if x.Common().IsInvoke() && (x.Common().Method.Name() == "Hash" || x.Common().Method.Name() == "Sum") {
+					fixed = true
+					continue
+				}
+				return "var"
+			case *ssa.MakeSlice:
+				if _, isC := x.Len.(*ssa.Const); isC {
+					fixed = true
+					continue
+				}
+				return "var"
+			case *ssa.Slice:
+				// ttlBytes := make([]byte, 8): resliced alloc of constant size
+				fixed = true
+			case *ssa.Const:
+				return "const"
+			default:
+				return "var"
+			}
+		}
+		if fixed {
+			return "fixed"
+		}
+		return "var"
+	}
+	for _, fn := range fns {
+		r.Analysed(w.FnName(fn))
+		ok, pos, nvar := true, fn.Pos(), 0
+		for _, b := range fn.Blocks {
+			var kinds []string
+			var poss []token.Pos
+			for _, in := range b.Instrs {
+				c, isC := in.(ssa.CallInstruction)
+				if !isC || !isOrderSensitiveSink(c.Common()) {
+					continue
+				}
+				args := callArgs(c.Common())
+				if len(args) == 0 {
+					continue
+				}
+				k := kind(args[len(args)-1])
+				kinds = append(kinds, k)
+				poss = append(poss, c.Pos())
+				if k == "var" {
+					nvar++
+				}
+			}
+			for i := 1; i < len(kinds); i++ {
+				if kinds[i] == "var" && kinds[i-1] == "var" {
+					ok, pos = false, poss[i]
+				}
+			}
+			// around a loop: the last write of the body meets the first one of the next iteration
+			if len(kinds) > 0 && reach(b, nil)[b] && kinds[0] == "var" && kinds[len(kinds)-1] == "var" {
+				onCycle := false
+				for _, sx := range b.Succs {
+					if reach(sx, nil)[b] {
+						onCycle = true
+					}
+				}
+				if onCycle {
+					ok, pos = false, poss[0]
+				}
+			}
+		}
+		if nvar < 2 {
+			continue
+		}
+		r.Ob(ri, w.FnName(fn)+"|parts-separated", pos, ok, "two variable-length parts are written into the digest one directly after the other: the boundary between them can shift (ab+c = a+bc), so different inputs share one cache entry")
+	}
 }
